@@ -174,6 +174,10 @@ def build_lib(flavour, need_inst):
         cfg = os.path.join(d, "inc", "soplex", "config.h")
         if not os.path.exists(cfg):
             open(cfg, "w").write(config_h())
+        # cmake generates src/soplex/git_hash.cpp (git-ignored); a fresh checkout / worktree does not have it
+        gh = os.path.join(d, "inc", "soplex", "git_hash.cpp")
+        if not os.path.exists(os.path.join(REPO, "src", "soplex", "git_hash.cpp")) and not os.path.exists(gh):
+            open(gh, "w").write('#define SPX_GITHASH "verif"\n')
         inc = "-I%s/inc -I%s/src -I%s" % (d, REPO, HARNESS)
         jobs = []
         light = os.path.join(d, "liblight.a")
